@@ -3,6 +3,7 @@ package main
 import (
 	"fmt"
 	"go/ast"
+	"go/parser"
 	"go/token"
 	"go/types"
 	"strings"
@@ -269,6 +270,18 @@ func (e *Ev) callStatic(fn *types.Func, recv *Term, args []Term, n *ast.CallExpr
 	mk := func(st, old *State) *Ev {
 		return &Ev{u: e.u, st: st, old: old, spec: true, pos: pos, bv: calleeBV, bound: map[string]Term{}, guard: append([]string(nil), e.guard...), quiet: true}
 	}
+	// caller-specific call-site assertions (`callsite KEY: expr`), with the callee's parameter
+	// names bound to the actual arguments as arg_<name>
+	{
+		bind := map[string]Term{}
+		for i := 0; i < sig.Params().Len() && i < len(args); i++ {
+			bind["arg_"+sig.Params().At(i).Name()] = args[i]
+		}
+		if recv != nil && sig.Recv() != nil {
+			bind["arg_"+sig.Recv().Name()] = *recv
+		}
+		e.checkCallsite(key, n, bind)
+	}
 	// requires
 	if !e.spec && !e.quiet {
 		for i, c := range b.clauses("requires") {
@@ -338,6 +351,32 @@ func (e *Ev) callStatic(fn *types.Func, recv *Term, args []Term, n *ast.CallExpr
 			e.havocItem(h, mk(pre, pre))
 		}
 	}
+	// allocation: heaps in which the callee creates objects change only at objects allocated by
+	// this call (predicate alloc$k, which implies fresh$ and excludes the caller's own allocations)
+	allocPred := ""
+	if as := b.clauses("allocates"); len(as) > 0 {
+		allocPred = e.g().freshName("alloc$")
+		e.st.declareFun(allocPred, []string{sInt}, sBool)
+		e.g().Pre.add("(declare-fun fresh$ (Int) Bool)")
+		e.define(fmt.Sprintf("(forall ((r Int)) (! (=> (%s r) (fresh$ r)) :pattern ((%s r))))", allocPred, allocPred))
+		for _, o := range e.st.allocs {
+			e.define(smtNot(app(allocPred, o)))
+		}
+		for _, c := range as {
+			for _, h := range strings.Fields(c.Text) {
+				name, srt := e.allocHeap(h, calleeBV)
+				if name == "" {
+					continue
+				}
+				cur := e.heap(name, srt)
+				nm := e.g().freshName(name)
+				e.st.declare(nm, srt)
+				e.define(fmt.Sprintf("(forall ((r Int)) (! (=> (not (%s r)) (= (select %s r) (select %s r))) :pattern ((select %s r))))", allocPred, nm, cur, nm))
+				e.st.heaps[name] = Term{S: nm, Sort: srt}
+				e.u.noteWrite(name)
+			}
+		}
+	}
 	postView := &State{vars: map[types.Object]Term{}, named: map[string]Term{}, heaps: post.heaps, decls: e.st.decls, boxed: map[types.Object]*Loc{}}
 	bind(postView)
 	var resNames []string
@@ -360,6 +399,7 @@ func (e *Ev) callStatic(fn *types.Func, recv *Term, args []Term, n *ast.CallExpr
 		ce := mk(postView, pre)
 		ce.results = results
 		ce.resNames = resNames
+		ce.allocPred = allocPred
 		ce.qvars = e.qvars
 		t := ce.evSpec(c.Text)
 		e.assumeQ(smtImp(smtAnd(append([]string{e.guardCond()}, reqs...)...), t.S))
@@ -581,7 +621,7 @@ func (e *Ev) builtin(name string, n *ast.CallExpr) Term {
 	case "panic":
 		e.ev(n.Args[0])
 		e.panicIf("true", "explicit panic", n)
-		e.st.dead = false
+		e.st.dead = true
 		return Term{Sort: "void"}
 	case "append":
 		return e.appendBuiltin(n)
@@ -869,4 +909,40 @@ func (u *Unit) revealed(key string) bool {
 		}
 	}
 	return false
+}
+
+// allocHeap resolves an `allocates` item: a struct type name (objects of that type) or
+// elems(T) (backing arrays with elements of Go type T) or a heap name.
+func (e *Ev) allocHeap(item string, bv bool) (string, string) {
+	if strings.HasPrefix(item, "elems(") && strings.HasSuffix(item, ")") {
+		tx, err := parser.ParseExpr(item[6 : len(item)-1])
+		if err != nil {
+			e.errorf(nil, "allocates %s", item)
+			return "", ""
+		}
+		t := e.evType(tx)
+		if t == nil {
+			e.errorf(nil, "allocates %s: unknown type", item)
+			return "", ""
+		}
+		es := e.g().sortOf(t, bv)
+		return "A$" + sanitize(es), fmt.Sprintf("(Array Int (Array Int %s))", es)
+	}
+	if strings.Contains(item, "$") {
+		if s, ok := e.g().heapSorts[item]; ok {
+			return item, s
+		}
+		if t, ok := e.st.heaps[item]; ok {
+			return item, t.Sort
+		}
+		return "", ""
+	}
+	obj := e.g().P.Pkg.Types.Scope().Lookup(item)
+	tn, ok := obj.(*types.TypeName)
+	if !ok {
+		e.errorf(nil, "allocates %s: not a type", item)
+		return "", ""
+	}
+	s := e.g().sortOf(tn.Type(), bv)
+	return "H$" + sanitize(s), fmt.Sprintf("(Array Int %s)", s)
 }
